@@ -66,6 +66,22 @@ let parse_op () =
   | "FAIL" -> OFail
   | t -> failwith ("bad op " ^ t)
 
+(* derived operation DeleteWhere (Store/XOps.v XDeleteWhere, the definitions of C07; same tokens as store_driver.ml):
+   DW <store> T | DW <store> EQ <field> <hexvalue> *)
+let parse_xop () =
+  match peek () with
+  | Some "DW" ->
+      ignore (next ());
+      let s = next_name () in
+      (match next () with
+       | "T" -> XDeleteWhere (s, DwTrue)
+       | "EQ" -> let f = next_name () in let v = next_hex () in XDeleteWhere (s, DwFieldEq (f, v))
+       | t -> failwith ("bad DW filter " ^ t))
+  | _ -> XBase (parse_op ())
+
+(* a transaction whose body holds plain operations only is a [tx] as before (and may be a mixed transaction / a restore
+   step of C16); one with a DeleteWhere runs through run_xtx - by XOpsProofs.run_xtx_is_run_tx it is the plain
+   transaction of its flattening *)
 let parse_tx () =
   (match next () with "TX" -> () | t -> failwith ("expected TX got " ^ t));
   let sys = next_bool () in
@@ -73,8 +89,11 @@ let parse_tx () =
   let nv = next_int () in
   let vetoes = repeat nv (fun () -> let s = next_name () in let c = parse_change () in let i = next_hex () in ((s, c), i)) in
   let no = next_int () in
-  let ops = repeat no parse_op in
-  { tx_sys = sys; tx_vetoes = vetoes; tx_ops = ops; tx_precommit_fails = pcf }
+  let xops = repeat no parse_xop in
+  if List.for_all (function XBase _ -> true | _ -> false) xops then
+    `Plain { tx_sys = sys; tx_vetoes = vetoes; tx_ops = List.map (function XBase o -> o | _ -> OFail) xops; tx_precommit_fails = pcf }
+  else
+    `Derived { xtx_sys = sys; xtx_vetoes = vetoes; xtx_ops = xops; xtx_precommit_fails = pcf }
 
 (* C16 mixed transactions (Store/SystemMixed.v, harness store_c16s.go): the pseudo veto  @m C <mode string>  carries three
    characters per operation: context (b = the transaction's base context, s / n / u = a system context derived from it,
@@ -225,8 +244,12 @@ let () =
       let trace = ref [st_empty] in   (* the states after 0, 1, 2, ... steps (Store/SystemRestore.v) *)
       let buf = Buffer.create 4096 in
       while peek () <> None do
-        let t = parse_tx () in
-        let ((((rs, committed), st'), evs), trace') = hist_step sch fuel st_empty !trace (hstep_of t) in
+        let ((((rs, committed), st'), evs), trace') = (match parse_tx () with
+          | `Plain t -> hist_step sch fuel st_empty !trace (hstep_of t)
+          | `Derived t ->
+              (* one more step of the history: Db.Update from the current state *)
+              let (((rs, committed), st'), evs) = run_xtx sch fuel !st t in
+              ((((rs, committed), st'), evs), !trace @ [st'])) in
         st := st';
         trace := trace';
         Buffer.add_string buf "TX R";
